@@ -75,6 +75,16 @@ DictPut(cell, key, v) == LET i == KeyIndex(cell, key) IN
                          ELSE [cell EXCEPT !.vs[i] = v]
 SetCell(S, a, cell) == [S EXCEPT !.heap[a] = cell]
 
+\* Attribute look-up on a dict: the dict's own entry, else the entry of the first dict along its __proto__ chain that has
+\* one, else null.  The chain may return to a dict already visited (d.__proto__ = d): the walk stops there.
+ProtoKey == <<"_", "_", "p", "r", "o", "t", "o", "_", "_">>
+RECURSIVE ProtoGet(_, _, _, _)
+ProtoGet(S, a, key, visited) ==
+  LET cell == S.heap[a] IN
+  IF KeyIndex(cell, key) # 0 THEN DictGet(cell, key)
+  ELSE LET p == DictGet(cell, ProtoKey) IN
+       IF p.t = "dict" /\ p.a \notin visited THEN ProtoGet(S, p.a, key, visited \cup {p.a}) ELSE [t |-> "null"]
+
 -----------------------------------------------------------------------------
 (* Text *)
 
@@ -93,15 +103,33 @@ FltChars(n, d) ==
       fr == FracChars(a % d, d) IN
   (IF n < 0 THEN <<"-">> ELSE <<>>) \o ip \o (IF fr = <<>> THEN <<>> ELSE <<".">> \o fr)
 
+\* Values are graphs: a container may contain itself, two containers may share a third.  The containers reachable from v:
+RECURSIVE ReachFrom(_, _, _)
+ReachFrom(todo, done, S) ==
+  IF todo = {} THEN done
+  ELSE LET a == CHOOSE x \in todo : TRUE
+           c == Cell(S, a)
+           kids == IF "xs" \in DOMAIN c THEN {c.xs[i].a : i \in {j \in 1..Len(c.xs) : c.xs[j].t \in {"arr", "dict"}}}
+                   ELSE {c.vs[i].a : i \in {j \in 1..Len(c.vs) : c.vs[j].t \in {"arr", "dict"}}}
+           done2 == done \cup {a} IN
+       ReachFrom((todo \cup kids) \ done2, done2, S)
+Reach(v, S) == IF v.t \in {"arr", "dict"} THEN ReachFrom({v.a}, {}, S) ELSE {}
+CellLen(c) == IF "xs" \in DOMAIN c THEN Len(c.xs) ELSE Len(c.vs)
+\* the oracle's domain for walks over a value (comparison, printing): at most MaxObjs containers of at most 40 elements each,
+\* cyclic or not (a walk that remembers where it has been is bounded by the number of objects, not by the number of paths)
+MaxObjs == 10
+TooBig(v, S) == LET R == Reach(v, S) IN Cardinality(R) > MaxObjs \/ \E a \in R : CellLen(Cell(S, a)) > 40
+
 RECURSIVE JoinSeqs(_, _)
 JoinSeqs(ss, sep) == IF ss = <<>> THEN <<>>
                      ELSE IF Len(ss) = 1 THEN ss[1] ELSE ss[1] \o sep \o JoinSeqs(Tail(ss), sep)
 
 \* ToStr / ToRepr; depth-bounded by the generators (no cyclic values).  Dicts with two or more keys have no
 \* defined order: "unordered" marks the result as out of the oracle's domain.
-MaxDepth == 6       \* deeper (or cyclic) values are outside the oracle's domain
+MaxDepth == 6       \* deeper values are outside the oracle's domain unless they are small graphs (OutOfWalk)
 RECURSIVE DepthOf(_, _, _)
 TooDeep(v, S) == DepthOf(v, S, 0) > MaxDepth
+OutOfWalk(v, S) == TooDeep(v, S) /\ TooBig(v, S)     \* shallow values of any size and small graphs of any shape are inside
 \* SeenElision (the code's recursion guard, modelled as it is): within ONE rendering, a container that has already been
 \* rendered - an ancestor (a true cycle) or merely an earlier sibling that is the same object - is printed as [...] / {...}.
 \* `seen` is threaded left to right; every rendering (every ToStr call, every hole of a template) starts with none seen.
@@ -121,7 +149,7 @@ StrOfS(v, S, repr, dep, seen) ==
     [] v.t = "null" -> [ok |-> TRUE, c |-> <<"n", "u", "l", "l">>, seen |-> seen]
     [] v.t = "arr"  -> IF v.a \in seen THEN [ok |-> TRUE, c |-> <<"[", ".", ".", ".", "]">>, seen |-> seen]
                        ELSE LET xs == Cell(S, v.a).xs IN
-                            IF Len(xs) > 64 \/ TooDeep(v, S) THEN [ok |-> FALSE, c |-> <<>>, seen |-> seen]
+                            IF Len(xs) > 64 \/ OutOfWalk(v, S) THEN [ok |-> FALSE, c |-> <<>>, seen |-> seen]
                             ELSE LET r == StrList(xs, S, dep + 1, seen \cup {v.a}, 1) IN
                                  [ok |-> r.ok, c |-> <<"[">> \o JoinSeqs(r.parts, <<",", "SP">>) \o <<"]">>, seen |-> r.seen]
     [] v.t = "dict" -> IF v.a \in seen THEN [ok |-> TRUE, c |-> <<"LB", ".", ".", ".", "RB">>, seen |-> seen]
@@ -156,22 +184,33 @@ DepthOf(v, S, dep) ==
                           IF vs = <<>> THEN dep ELSE LET ds == {DepthOf(vs[i], S, dep + 1) : i \in 1..Len(vs)} IN CHOOSE m \in ds : \A y \in ds : m >= y
          [] OTHER -> dep
 
-RECURSIVE VEq(_, _, _)
-VEq(a, b, S) ==
-  IF IsNum(a) /\ IsNum(b) THEN NumN(a) * NumD(b) = NumN(b) * NumD(a)
-  ELSE IF a.t # b.t THEN FALSE
-  ELSE CASE a.t = "str"  -> a.c = b.c
-         [] a.t = "null" -> TRUE
-         [] a.t = "arr"  -> LET x == Cell(S, a.a).xs
-                                y == Cell(S, b.a).xs IN
-                            Len(x) = Len(y) /\ \A i \in 1..Len(x) : VEq(x[i], y[i], S)
-         [] a.t = "dict" -> LET x == Cell(S, a.a)
-                                y == Cell(S, b.a) IN
-                            /\ Len(x.ks) = Len(y.ks)
-                            /\ \A i \in 1..Len(x.ks) : DictHas(y, x.ks[i]) /\ VEq(x.vs[i], DictGet(y, x.ks[i]), S)
-         [] a.t = "func" -> a.n = b.n
-         [] a.t = "nat"  -> a.n = b.n
-         [] OTHER -> FALSE
+\* Equality of graphs: pairs of containers under comparison are remembered; meeting a pair again counts as equal at that
+\* point (two cyclic values are equal exactly when they have the same shape).  `vis` is threaded through the conjunction.
+RECURSIVE VEqV(_, _, _, _)
+RECURSIVE VEqList(_, _, _, _, _)
+VEqList(x, y, S, vis, k) ==   \* x, y: sequences of values of equal length
+  IF k > Len(x) THEN [eq |-> TRUE, vis |-> vis]
+  ELSE LET h == VEqV(x[k], y[k], S, vis) IN
+       IF ~h.eq THEN h ELSE VEqList(x, y, S, h.vis, k + 1)
+VEqV(a, b, S, vis) ==
+  IF IsNum(a) /\ IsNum(b) THEN [eq |-> NumN(a) * NumD(b) = NumN(b) * NumD(a), vis |-> vis]
+  ELSE IF a.t # b.t THEN [eq |-> FALSE, vis |-> vis]
+  ELSE CASE a.t = "str"  -> [eq |-> a.c = b.c, vis |-> vis]
+         [] a.t = "null" -> [eq |-> TRUE, vis |-> vis]
+         [] a.t = "arr"  -> IF <<a.a, b.a>> \in vis THEN [eq |-> TRUE, vis |-> vis]
+                            ELSE LET x == Cell(S, a.a).xs
+                                     y == Cell(S, b.a).xs IN
+                                 IF Len(x) # Len(y) THEN [eq |-> FALSE, vis |-> vis]
+                                 ELSE VEqList(x, y, S, vis \cup {<<a.a, b.a>>}, 1)
+         [] a.t = "dict" -> IF <<a.a, b.a>> \in vis THEN [eq |-> TRUE, vis |-> vis]
+                            ELSE LET x == Cell(S, a.a)
+                                     y == Cell(S, b.a) IN
+                                 IF Len(x.ks) # Len(y.ks) \/ \E i \in 1..Len(x.ks) : ~DictHas(y, x.ks[i]) THEN [eq |-> FALSE, vis |-> vis]
+                                 ELSE VEqList(x.vs, [i \in 1..Len(x.ks) |-> DictGet(y, x.ks[i])], S, vis \cup {<<a.a, b.a>>}, 1)
+         [] a.t = "func" -> [eq |-> a.n = b.n, vis |-> vis]
+         [] a.t = "nat"  -> [eq |-> a.n = b.n, vis |-> vis]
+         [] OTHER -> [eq |-> FALSE, vis |-> vis]
+VEq(a, b, S) == VEqV(a, b, S, {}).eq
 
 -----------------------------------------------------------------------------
 (* Arithmetic *)
@@ -249,8 +288,8 @@ BinOp(op, a, b, S, cfg) ==
          ELSE IF b.v >= 0 /\ b.v <= 3 /\ Abs(a.n) <= 100 /\ a.d <= 8 THEN OkNum(VFlt(IPow(a.n, b.v), IPow(a.d, b.v)), S) ELSE Ood(S)
     [] op = "??" -> IF a.t = "null" THEN Ok(b, S) ELSE Ok(a, S)
     [] op \in {"<", "<=", ">=", ">"} -> IF IsNum(a) /\ IsNum(b) THEN Ok(B2I(CmpNum(op, a, b)), S) ELSE Err(S)
-    [] op = "==" -> IF a.t \in {"comp"} \/ b.t \in {"comp"} \/ TooDeep(a, S) \/ TooDeep(b, S) THEN Ood(S) ELSE Ok(B2I(VEq(a, b, S)), S)
-    [] op = "!=" -> IF a.t \in {"comp"} \/ b.t \in {"comp"} \/ TooDeep(a, S) \/ TooDeep(b, S) THEN Ood(S) ELSE Ok(B2I(~VEq(a, b, S)), S)
+    [] op = "==" -> IF a.t \in {"comp"} \/ b.t \in {"comp"} \/ OutOfWalk(a, S) \/ OutOfWalk(b, S) THEN Ood(S) ELSE Ok(B2I(VEq(a, b, S)), S)
+    [] op = "!=" -> IF a.t \in {"comp"} \/ b.t \in {"comp"} \/ OutOfWalk(a, S) \/ OutOfWalk(b, S) THEN Ood(S) ELSE Ok(B2I(~VEq(a, b, S)), S)
     [] op \in {"&", "|"} ->
          IF a.t = "int" /\ b.t = "int"
          THEN (IF a.v < 0 \/ b.v < 0 THEN Ood(S) ELSE Ok(VInt(BitOp(a.v, b.v, op = "&", 0)), S))
